@@ -79,6 +79,9 @@ class RollerEngine(Engine):
             # month / leap-day / year boundaries
             "daily - 5 2 a.b .log .zip 1 2 - w 1 2 1 6 w 2 0 2 6 w 3 0 3 6 w 4 3 4 6 w 308 1 5 6 w 309 0 6 6 w 675 1 7 6 f",
             "minutely - - - app_time .log _ 9 2 - w 9 2 1 6 w 10 0 2 6 w 10 3 3 6 w 69 2 4 6 w 70 0 5 6 f",
+            # regression cases of the repaired name parsing (fixed: F-roller-dotted-sibling, F-roller-dated-prefix)
+            "daily 5 1 - app .log _ 7 1 d:3:1 w 7 1 1 6 w 7 1 2 7 f",
+            "never 10 - - app.2024-01-01.7 .log _ 0 0 - w 0 0 1 12 w 0 0 2 12 f",
             # sibling appenders sharing the prefix / unrelated files: never counted, renumbered, compressed or deleted
             # (F-roller-prefix, fixed in /repo 95e064e: retention used to delete them)
             "daily 5 1 - app .log _ 7 1 t:3:1 w 7 1 1 6 w 7 1 2 7 f",
